@@ -986,14 +986,15 @@ pub fn gen(rng: &mut Rng, thorough: bool, out: &mut Vec<String>) {
         let mut seed = 1000 + g.r.below(1 << 40);
         for &k in &[16u32, 17, 18] {
             for &np in &[1usize, 64, 99, 100] {
-                for tag in ["b", "x"] {
-                    if tag == "x" && !(np == 64 && k >= 17) {
-                        continue;
-                    }
-                    seed += 2;
-                    let off = g.offset();
-                    g.push(format!("polyi coset_extrapolate {} {} R:{}:{} R:{}:{}", tag, off, seed, 1usize << k, seed + 1, np));
-                }
+                seed += 2;
+                let off = g.offset();
+                g.push(format!("polyi coset_extrapolate b {} R:{}:{} R:{}:{}", off, seed, 1usize << k, seed + 1, np));
+            }
+            if k >= 17 {
+                // extension field (few points: the model's long division over triples is slow)
+                seed += 2;
+                let off = g.offset();
+                g.push(format!("polyi coset_extrapolate x {} R:{}:{} R:{}:{}", off, seed, 1usize << k, seed + 1, 6));
             }
             seed += 2;
             let off = g.offset();
